@@ -658,8 +658,41 @@ def redirects(ck):
     for n in fin.cfg.nodes_for(fetch_call):
         ck.ob("C09.redirect-follow-table", fin, fetch_call, has(gfin[n.id], "self._should_follow_redirect()", True), "the redirected fetch is issued only when _should_follow_redirect() holds")
 
-    # -- decrement
+    # -- the outcome of the redirected fetch always reaches the original caller
     fetch_nodes = fin.cfg.nodes_for(fetch_call)
+    fut_names = set()
+    for fnode in fetch_nodes:
+        if isinstance(fnode.ast, ast.Assign) and fnode.ast.value is fetch_call:
+            fut_names |= {p_ for p_ in q.assigned_paths(fnode.ast) if "." not in p_}
+    regs = []
+    for c in q.calls(fn):
+        if q.call_attr(c) == "add_done_callback" and q.receiver(c) in fut_names and c.args:
+            regs.append((c, c.args[0]))
+        elif q.call_attr(c) in ("future_add_done_callback", "add_future") and len(c.args) >= 2 and q.dotted(c.args[0]) in fut_names:
+            regs.append((c, c.args[1]))
+    if not regs:
+        raise AnalysisError("cannot see how the redirected fetch's outcome is handed to the original callback")
+    # can the redirected fetch's future hold an exception?  (AsyncHTTPClient.fetch's response handler)
+    fetch_fi = ck.func(HC, "AsyncHTTPClient.fetch")
+    may_fail = any(k in ("future_set_exception_unless_cancelled", "set_exception", "future_set_exc_info") for x in ast.walk(fetch_fi.node) if isinstance(x, ast.Call) for k in [q.call_attr(x)])
+    for c, cb in regs:
+        if isinstance(cb, ast.Lambda):
+            prm = cb.args.args[0].arg if cb.args.args else None
+            reads = [x for x in ast.walk(cb.body) if isinstance(x, ast.Call) and q.call_attr(x) == "result" and q.receiver(x) == prm]
+            ck.ob("C09.redirect-completes", fin, c, not (reads and may_fail),
+                  "the callback on the redirected fetch's future hands the outcome to the original final callback in every case; reading f.result() unprotected raises when the redirected hop failed with a non-HTTP error (connection refused, timeout) and the original fetch then never completes",
+                  construct="redirected fetch: done-callback (lambda) reads result() unprotected")
+        elif isinstance(cb, ast.Name) and ck.repo.has_func(SH, fin.qualname + ".<locals>." + cb.id):
+            cfi = ck.func(SH, fin.qualname + ".<locals>." + cb.id)
+            prm = [p_ for p_ in cfi.params()][0] if cfi.params() else None
+            cpm = q.parent_map(cfi.node)
+            reads = [x for x in q.walk_body(cfi.node) if isinstance(x, ast.Call) and q.call_attr(x) == "result" and q.receiver(x) == prm]
+            ok = all(q.protected_by(cpm, x, "Exception") is not None for x in reads) or not may_fail
+            ck.ob("C09.redirect-completes", fin, c, ok, "the callback on the redirected fetch's future reads its outcome under a handler for Exception (a failed hop still completes the original fetch)")
+        else:
+            raise AnalysisError("callback registered on the redirected fetch is neither a lambda nor a local function")
+
+    # -- decrement
     decs = [st for st in q.stores_to(fn, nr + ".max_redirects")]
     ck.floor("C09.redirect-decrement", len(decs), 1, "assignments to %s.max_redirects" % nr)
     for st in decs:
@@ -771,6 +804,25 @@ def redirects(ck):
     for fld in ("auth_username", "auth_password"):
         ok = any(isinstance(s, ast.Assign) and nr + "." + fld in q.assigned_paths(s) and is_none(s.value) for s in body)
         ck.ob("C09.strip-credentials", fin, strip_if.test, ok, "%s.%s is cleared on the cross-origin branch" % (nr, fld), construct="cross-origin branch clears %s" % fld)
+    # clearing with None is only effective if the request wrapper does not treat None as "use the client default"
+    proxy_get = ck.func(HC, "_RequestProxy.__getattr__")
+    pgf = guard_facts(proxy_get)
+    fallback = []
+    for m in proxy_get.cfg.stmt_nodes(lambda m: m.kind == "stmt" and isinstance(m.ast, ast.Return) and m.ast.value is not None):
+        v = m.ast.value
+        uses_defaults = any(q.dotted(x) == "self.defaults" for x in ast.walk(v))
+        if not uses_defaults:
+            continue
+        # is this return reached when the request's own attribute is None?
+        own = [st.targets[0].id for st in q.walk_body(proxy_get.node) if isinstance(st, ast.Assign) and isinstance(st.targets[0], ast.Name) and q.is_call(st.value, "getattr") and st.value.args and q.dotted(st.value.args[0]) == "self.request"]
+        if any(has(pgf[m.id], "%s is None" % o, True) for o in own) or not own:
+            fallback.append(m)
+    for s_ in body:
+        if isinstance(s_, ast.Assign) and is_none(s_.value):
+            for fld in ("auth_username", "auth_password"):
+                if nr + "." + fld in q.assigned_paths(s_):
+                    ck.ob("C09.strip-defaults", fin, s_, not fallback,
+                          "clearing %s.%s with None really removes the credential: the request wrapper (_RequestProxy.__getattr__) must not fall back to the client's defaults for an attribute that is None (else default credentials are re-added to the cross-origin request)" % (nr, fld))
     dl = header_deletions(body, hdrs, None, fin.module, CONN)
     names = {nm for nm, _n, _s in dl}
     for h in sorted(CREDENTIAL_HEADERS):
@@ -919,6 +971,8 @@ def run(ck):
     ck.rule("C09.redirect-method-rewrite", "(303 and not HEAD) or (301/302 and POST) becomes a GET with body None and without the four content headers, before the new fetch")
     ck.rule("C09.cross-origin-test", "the credential-stripping branch is taken whenever scheme, host or port of the redirect target differ from the request's")
     ck.rule("C09.strip-credentials", "on the cross-origin branch auth_username/auth_password are cleared and each of Authorization and Cookie is deleted")
+    ck.rule("C09.strip-defaults", "credentials cleared with None on the cross-origin branch are not re-supplied from the client's defaults by the request wrapper")
+    ck.rule("C09.redirect-completes", "the outcome of a redirected fetch (result or exception) always reaches the original final callback")
     ck.rule("C09.strip-url-userinfo", "on the cross-origin branch the URL is rebuilt from hostname/port only when it carries userinfo")
     ck.rule("C09.strip-order", "headers and url of the redirected request are not re-assigned after the cross-origin decision, which precedes the new fetch")
     ck.rule("C09.strip-delete-effective", "HTTPHeaders.__delitem__ raises KeyError only for absent names (no KeyError-fallible operation before the removal from the authoritative store), so a swallowed KeyError cannot leave a credential header behind")
@@ -1091,6 +1145,7 @@ def _capacity_helper_off_by_one(root):
 
 
 MUTANTS = [
+    ("redirected fetch's result read in a local function without a handler", _in(SH, CONN + ".finish", replace_stmt(lambda st: isinstance(st, ast.Expr) and "add_done_callback" in _src(st), lambda st: ast.parse("def _done(f):\n    final_callback(f.result())\nfut.add_done_callback(_done)").body)), "C09.redirect-completes"),
     ("seeded C09-adv1: cross-origin decision via _origin() helper without the scheme", _in(SH, CONN, _origin_helper_without_scheme), "C09.cross-origin-test"),
     ("method rewrite via helper that forgets the HEAD exemption", _in(SH, CONN, _rewrite_through_helper_dropping_head), "C09.redirect-method-rewrite"),
     ("capacity test via helper with <=", _in(SH, CLIENT, _capacity_helper_off_by_one), "C09.admit-guard"),
